@@ -54,7 +54,8 @@ VIEW_CALLS = {'numpy.asarray', 'numpy.atleast_1d', 'numpy.atleast_2d', 'numpy.at
               'numpy.ascontiguousarray', 'numpy.asanyarray', 'numpy.transpose',
               'numpy.reshape', 'numpy.ravel', 'numpy.squeeze', 'numpy.diagonal',
               'numpy.swapaxes', 'numpy.moveaxis', 'numpy.expand_dims', 'numpy.asfarray',
-              'numpy.broadcast_to', 'numpy.flip', 'numpy.real'}
+              'numpy.broadcast_to', 'numpy.flip', 'numpy.real', 'numpy.require',
+              'numpy.asarray_chkfinite'}
 VIEW_METHODS = {'transpose', 'reshape', 'ravel', 'squeeze', 'view', 'swapaxes',
                 'diagonal', 'flatten_view'}
 VIEW_ATTRS = {'T', 'values', 'real', 'flat', 'array'}
